@@ -137,3 +137,58 @@ package mempool
 //@   ensures called(evmTxNonceCheck) && ret(evmTxNonceCheck) != nil ==> msg.Data == ret(evmTxNonceCheck)
 //@   ensures called(PushTx) && ret(PushTx) != nil ==> msg.Data == ret(PushTx)
 //@   ensures called(PushTx) && ret(PushTx) == nil ==> msg.Data == old(msg.Data)
+
+// ---- C23: what a block producer is handed ---------------------------------------------------------------
+//@ pure func (*github.com/33cn/chain33/types.Transaction).IsExpire
+//@ pure func (*github.com/33cn/chain33/types.Chain33Config).IsFork
+
+// pool age or height/time expiry, judged for the block the caller passes
+//@ func isExpired [C23]
+//@   opt safety=assumed overflow=assumed
+//@   frame nothing
+//@   ensures ret(Unix) - item.EnterTime >= 600 ==> result
+//@   ensures called(IsExpire) && ret(IsExpire) ==> result
+//@   ensures result ==> ret(Unix) - item.EnterTime >= 600 || (called(IsExpire) && ret(IsExpire))
+//@   assert@call IsExpire: arg0 == item.Value && arg1 == cfg && arg2 == height && arg3 == blockTime
+
+// the visitor of the arrival-order walk: skips excluded hashes and expired entries, appends at most one
+// transaction, and stops the walk as soon as the requested count is reached
+//@ func (*Mempool).filterTxList$1 [C23]
+//@   opt safety=assumed overflow=assumed
+//@   requires tx != nil
+//@   ensures len(txs) == old(len(txs)) || (len(txs) == old(len(txs)) + 1 && txs[old(len(txs))] == tx.Value)
+//@   ensures forall j :: 0 <= j && j < old(len(txs)) ==> txs[j] == old(txs[j])
+//@   ensures len(txs) == old(len(txs)) + 1 ==> !(len(dupMap) > 0 && has(dupMap, bytes(ret(Hash)))) && (!ret(isExpired) || isAll)
+//@   ensures !result ==> count > 0 && len(txs) == count
+//@   ensures len(txs) == old(len(txs)) + 1 && count > 0 && len(txs) == count ==> !result
+//@   ensures count > 0 && old(len(txs)) < count ==> len(txs) <= count
+//@   assert@call isExpired: arg0 == cfg && arg1 == tx && arg2 == height && arg3 == blockTime
+
+// the caller's exclusion list becomes the set the visitor consults; the count is passed through
+//@ func (*Mempool).getTxList [C23]
+//@   opt safety=assumed overflow=assumed panics=allowed
+//@   requires filterList != nil && mem.header != nil
+//@   assert@call filterTxList: arg1 == filterList.Count && !arg3
+//@   assert@call filterTxList: forall j :: 0 <= j && j < len(filterList.Hashes) ==> has(arg2, bytes(filterList.Hashes[j]))
+//@   ensures result == ret(filterTxList)
+//@   loop 0 invariant 0 <= i && !isnil(dupMap)
+//@   loop 0 invariant forall j :: 0 <= j && j < i ==> has(dupMap, bytes(filterList.Hashes[j]))
+
+// the walk starts at the oldest entry, expiry is judged for the next block, and the nonce ordering is
+// the only post-processing
+//@ trusted func (*txCache).Walk
+//@   frame allocates, box:[]*github.com/33cn/chain33/types.Transaction
+//@ func (*Mempool).filterTxList [C23]
+//@   opt safety=assumed overflow=assumed panics=allowed
+//@   requires mem.header != nil
+//@   assert@call Walk: arg1 == 0 && height == old(mem.header.Height) + 1 && blockTime == old(mem.header.BlockTime) && len(txs) == 0
+//@   assert@call Walk: count == old(count) && isAll == old(isAll) && dupMap == old(dupMap)
+//@   ensures called(sortEthSignTyTx) ==> result == ret(sortEthSignTyTx)
+
+// nonce ordering only drops or reorders: never more entries than it was given
+//@ func (*Mempool).sortEthSignTyTx [C23]
+//@   opt safety=assumed overflow=assumed panics=allowed
+//@   ensures result == txs || result == merge
+//@   loop 0 invariant len(merge) <= rangeindex + 1 && rangeindex >= -1
+//@   loop 1 invariant true
+//@   loop 2 invariant true
